@@ -665,6 +665,28 @@ func focusedSaveCase(t *rapid.T) *gen.ExecCase {
 	n := 2 + gen.Uniform(t, "f.n", 4)
 	for i := 0; i < n; i++ {
 		dst := &gen.Dst{Kind: gen.DAcct, Addr: gen.Acct(gen.Pick(t, "f.dst", []string{"d", "x", "y"}))}
+		if gen.Chance(t, "f.richdst", 30) {
+			// destinations that keep a part (at the top, nested, in an allotment): the source
+			// retains funds that a later save has to reserve like any others
+			to := func(n string) gen.KOD { return gen.KOD{Dst: &gen.Dst{Kind: gen.DAcct, Addr: gen.Acct(n)}} }
+			kept := gen.KOD{Kept: true}
+			other := gen.Pick(t, "f.dst2", []string{"d", "y"})
+			switch gen.Uniform(t, "f.dstkind", 4) {
+			case 0:
+				dst = &gen.Dst{Kind: gen.DInorder, Clauses: []gen.DstClause{{Cap: mon(amt("f.dcap")), To: to(other)}}, Remaining: &kept}
+			case 1:
+				r := to(other)
+				dst = &gen.Dst{Kind: gen.DInorder, Clauses: []gen.DstClause{{Cap: mon(amt("f.dcap")), To: kept}}, Remaining: &r}
+			case 2:
+				r2 := to("d")
+				inner := gen.KOD{Dst: &gen.Dst{Kind: gen.DInorder, Clauses: []gen.DstClause{{Cap: mon(amt("f.dcap2")), To: kept}}, Remaining: &r2}}
+				dst = &gen.Dst{Kind: gen.DInorder, Clauses: []gen.DstClause{{Cap: mon(amt("f.dcap")), To: to(other)}}, Remaining: &inner}
+			default:
+				dst = &gen.Dst{Kind: gen.DAllot, Items: []gen.DstItem{
+					{Portion: gen.Allot{Kind: gen.ALit, Text: "1/2"}, To: to(other)},
+					{Portion: gen.Allot{Kind: gen.ARemaining}, To: kept}}}
+			}
+		}
 		switch gen.Uniform(t, "f.kind", 6) {
 		case 0, 1:
 			st := &gen.Stmt{Kind: gen.StSave, SaveFrom: gen.Acct(gen.Pick(t, "f.saveacct", []string{"x", "x", "x", "y"}))}
